@@ -55,7 +55,7 @@ func (t *TwinSet) Offer(c *world.Case, out Outcome) {
 	}
 	k := t.perCls[c.Class]
 	t.perCls[c.Class] = k + 1
-	if t.n >= t.Cap || (k >= 3 && k%8 != 0) {
+	if !c.TwinKeep && (t.n >= t.Cap || (k >= 3 && k%8 != 0)) {
 		return
 	}
 	t.n++
